@@ -2,4 +2,5 @@
 # Build the framework from files on disk only (offline).
 cd /verif || exit 2
 ./build.sh || exit 2
+./build.sh release || exit 2
 echo "setup ok"
